@@ -17,6 +17,7 @@
 #include <atomic>
 #include <condition_variable>
 #include <cstdint>
+#include <exception>
 #include <iostream>
 #include <memory>
 #include <mutex>
@@ -261,6 +262,9 @@ namespace bloch::runtime {
         std::mutex m_gcMutex;
         std::mutex m_heapMutex;
         size_t m_allocSinceGc = 0;
+        // First error raised by a user destructor; re-raised at the next statement boundary
+        // because a destructor runs inside a shared_ptr deleter, which must not throw.
+        std::exception_ptr m_pendingDestructorError;
         // Buffer for echo outputs so logs (INFO/WARNING/ERROR)
         // can be displayed first before normal program output.
         std::vector<std::string> m_echoBuffer;
